@@ -33,7 +33,7 @@ def eval_from(db, f, outer):
                 out.append((z3.And(g1, g2, truth(eval_expr(db, f.onclause, {**outer, **env}))), env))
         return out
     if isinstance(f, (Subquery, Alias)) and isinstance(f.element, Select):
-        rel = eval_select(db, f.element, outer)
+        rel = eval_select(db, f.element, {k: v for k, v in outer.items() if k != "__scope__"})
         return [(g, {(id(f), name): v for name, v in row.items()}) for g, row in rel]
     if isinstance(f, Table):
         return [(g, {(f.name, c): v for c, v in row.items()}) for g, row in db.t[f.name].rows()]
@@ -104,8 +104,14 @@ def eval_expr(db, e, env):
 
 def eval_select(db, sel, outer, proj=True):
     """returns list of (guard, {colname: (val,isnull)})"""
-    froms = FROMS.get(id(sel))
-    if froms is None: froms = sel.get_final_froms()
+    froms = list(sel.get_final_froms())
+    scope = outer.get("__scope__", [])
+    def leaves(f):
+        return leaves(f.left) + leaves(f.right) if isinstance(f, Join) else [f]
+    keep = [f for f in froms if not (not isinstance(f, Join) and any(f is g for g in scope))]
+    if keep and len(keep) < len(froms): froms = keep
+    new_scope = scope + [l for f in froms for l in leaves(f)]
+    outer = {**outer, "__scope__": new_scope}
     rel = [(z3.BoolVal(True), {})]
     for f in froms:
         R = eval_from(db, f, outer)
